@@ -15,11 +15,11 @@ import (
 
 var (
 	plainKeys  = []string{"a", "b", "c", "d", "e"}
-	exoticKeys = []string{"0", "1", "k k", "...", "x/y", ".", "", "q\"@id", "reject", "apps", "c12", "A", "-1", "id"}
-	numPool    = []string{"0", "1", "2", "-1", "1.5", "7", "42", "1000000", "1234567", "0.00001", "0.0001", "123456", "-0.5", "1e+21", "1e-7"}
+	exoticKeys = []string{"0", "1", "k k", "...", "x/y", ".", "", "q\"r", "reject", "apps", "c12", "A", "-1", "id"}
+	numPool    = []string{"0", "1", "2", "-1", "1.5", "7", "42", "1000000", "1234567", "0.00001", "0.0001", "123456", "-0.5", "0.000001", "99999999999999"}
 	strPool    = []string{"", "x", "y", "hello", "a\"b", "<&>", "\n", "@id", "..."}
 	idStrPool  = []string{"x", "y", "z", "w", "a b", "a/b", "", "q\"r", "dup", "7", ".", "id"}
-	idNumPool  = []string{"7", "8", "1.5", "1000000", "1234567", "1e+21", "0.00001", "0.0001", "-3"}
+	idNumPool  = []string{"7", "8", "1.5", "1000000", "1234567", "0.00001", "0.0001", "-3", "100000", "999999.5"}
 	badIdxPool = []string{"x", "-1", "+0", "01", "-0", "99999999999999999999", "", "1.0", "0x1"}
 )
 
@@ -368,12 +368,12 @@ func boolMap(m map[string]bool) map[string]any {
 
 func (prop) Generate(rng *core.Rand, tier string, emit func(string)) {
 	setup()
-	n, ncas, maxSteps := 500, 3, 14
+	n, ncas, maxSteps := 2500, 4, 16
 	switch tier {
 	case "thorough":
-		n, ncas, maxSteps = 12000, 25, 30
+		n, ncas, maxSteps = 30000, 25, 30
 	case "search":
-		n, ncas, maxSteps = 1500, 6, 20
+		n, ncas, maxSteps = 4000, 6, 20
 	}
 	g := &gen{rng: rng.Fork()}
 	for i := 0; i < n; i++ {
